@@ -100,7 +100,12 @@ func applyEdit(w *world.World, c *coregen.Case, h *honest, fk, ak []byte) ([]*fo
 		if e.What == "grease" {
 			b := make([]byte, 9)
 			rand.Read(b)
-			insAt(e.P, &format.Stanza{Type: "grease", Args: []string{"arg"}, Body: b})
+			// both spellings in use: the bare type of the test vectors and the random "<word>-grease" rage really emits
+			typ := "grease"
+			if (e.P+len(ss)+int(b[0]))%2 == 0 {
+				typ = fmt.Sprintf("%x-grease", b[1:4])
+			}
+			insAt(e.P, &format.Stanza{Type: typ, Args: []string{"arg"}, Body: b})
 		} else {
 			n, err := wrapTo(w, e.Key, ak)
 			if err != nil {
@@ -334,6 +339,14 @@ func byteLevel(run *vk.Run, w *world.World, pt []byte) {
 				for _, j := range [][]byte{{'x'}, {0}, {0xff}, []byte("junk")} {
 					ins("junk-after-marker", off+2, j...)
 					ins("junk-after-marker", off+3, j...)
+				}
+			}
+			if off == 0 || h.file[off-1] == '\n' {
+				// filler of exactly one and two internal line-buffer lengths (and one byte more) in front of a line: a
+				// line reader that drops what does not fit must not make the line whole again
+				for _, n := range []int{4096, 4097, 8192} {
+					ins(fmt.Sprintf("filler-before-line-%d", n), off, bytes.Repeat([]byte{'A'}, n)...)
+					ins(fmt.Sprintf("filler-before-line-%d", n), off, append(bytes.Repeat([]byte{'A'}, n-1), ' ')...)
 				}
 			}
 			if off%5 == 0 {
